@@ -446,7 +446,70 @@ class Operators:
         return j
 
 
-TARGETS = {"codebasin.preprocessor:ExpressionEvaluator.__apply_binary_op": Operators("apply_binary_op"),
+def operand_tree(pair):
+    """an expression tree whose C value and type are the given operand"""
+    u, v = pair
+    if u:
+        return ("lit", f"{v}u")
+    if v >= 0:
+        return ("lit", str(v))
+    if v == IMIN:
+        return ("par", ("bin", "-", ("un", "-", ("lit", str(IMAX))), ("lit", "1")))
+    return ("par", ("un", "-", ("lit", str(-v))))
+
+
+class Conditional(IfArith):
+    """c ? a : b on operands of both types, observed through ==, > 0 and < 0 (value and type of the result)"""
+    proved = True
+    role = "refuter + engine cross-check for the ?: unit (bounded, not counted as proved)"
+
+    def bound(self, tier):
+        return "3 conditions x 10 x 10 boundary arms of both types x 3 observations"
+
+    def _mk(self, c, a, b):
+        want = ev(("tern", ("val", c), ("val", a), ("val", b)))
+        x = ("par", ("tern", operand_tree(c), operand_tree(a), operand_tree(b)))
+        out = []
+        for obs in (("bin", "==", x, operand_tree(want)), ("bin", ">", x, ("lit", "0")), ("bin", "<", x, ("lit", "0"))):
+            out.append({"text": render(obs), "tree": obs})
+        return out
+
+    def inputs(self, tier, seed):
+        arms = [(False, v) for v in (0, 1, -1, IMIN, IMAX)] + [(True, v) for v in (0, 1, IMAX + 1, M - 1, 7)]
+        for c in ((False, 0), (False, 5), (True, 0)):
+            for a in arms:
+                for b in arms:
+                    yield {"c": c, "a": a, "b": b}
+
+    def nontrivial(self, inp):
+        return True
+
+    def from_model(self, unit, model):
+        c = model_pair(model, "expr")
+        subs = sorted((int(k.split("!")[1]), k) for k in model if k.split("!")[0] == "subexpr")
+        if c is None or len(subs) < 2:
+            return None
+        a, b = (model_pair({k: model[k]}, "subexpr") for _, k in subs[:2])
+        return {"c": c, "a": a, "b": b}
+
+    def check(self, inp):
+        for i in self._mk(tuple(inp["c"]), tuple(inp["a"]), tuple(inp["b"])):
+            r = super().check(i)
+            if r:
+                r["klass"] = "conditional:" + r["klass"]
+                r["expression"] = i["text"]
+                return r
+        return None
+
+    def encode(self, inp):
+        return {k: list(v) for k, v in inp.items()}
+
+    def decode(self, j):
+        return j
+
+
+TARGETS = {"codebasin.preprocessor:ExpressionEvaluator.expression": Conditional(),
+           "codebasin.preprocessor:ExpressionEvaluator.__apply_binary_op": Operators("apply_binary_op"),
            "codebasin.preprocessor:ExpressionEvaluator.__apply_unary_op": Operators("apply_unary_op"),
            "codebasin.preprocessor:ExpressionEvaluator.__wrap": Operators("wrap"),
            "codebasin.preprocessor:ExpressionEvaluator.evaluate": IfArith(),
